@@ -12,9 +12,49 @@ import z3
 from .scalars import CTX, Sym, SymInt
 
 
+class TokStr(str):
+    """the text of one formatted number.  Whitespace handling leaves it alone; an operation that edits its characters
+    (stripping digits, replacing, slicing) yields the text of an UNKNOWN number (a lossy token), because the digits a
+    double prints as are behind the C boundary of this model"""
+
+    def _edited(self, how):
+        value, _spec = CTX.tokens.get(str(self), (None, None))
+        return make_token(value, "edited:" + how)
+
+    @staticmethod
+    def _blank(chars):
+        return chars is None or all(c.isspace() for c in chars)
+
+    def strip(self, chars=None):
+        return self if TokStr._blank(chars) else self._edited("strip")
+
+    def rstrip(self, chars=None):
+        return self if TokStr._blank(chars) else self._edited("rstrip")
+
+    def lstrip(self, chars=None):
+        return self if TokStr._blank(chars) else self._edited("lstrip")
+
+    def replace(self, old, new, *a):
+        return self if (old and old.isspace()) else self._edited("replace")
+
+    def __getitem__(self, k):
+        if isinstance(k, slice) and k == slice(None, None, None):
+            return self
+        return self._edited("slice")
+
+    def removeprefix(self, p):
+        return self._edited("removeprefix")
+
+    def removesuffix(self, p):
+        return self._edited("removesuffix")
+
+    def zfill(self, n):
+        return self._edited("zfill")
+
+
 def make_token(value, spec):
-    tok = "@T%d@" % (len(CTX.tokens) + 1)
-    CTX.tokens[tok] = (value, spec)
+    tok = TokStr("@T%d@" % (len(CTX.tokens) + 1))
+    CTX.tokens[str(tok)] = (value, spec)
     return tok
 
 
@@ -24,7 +64,7 @@ def sym_float(s):
     if isinstance(s, SymInt):
         return Sym.lift(s)
     if isinstance(s, str):
-        key = s.strip()
+        key = str(s).strip()
         if key in CTX.tokens:
             value, spec = CTX.tokens[key]
             if spec not in ("", None):
@@ -43,7 +83,7 @@ def sym_int(s, *a):
         r = s.__int__()  # int(float) of a symbolic value (SymInt when it is an integer that travelled through a double)
         return r
     if isinstance(s, str):
-        key = s.strip()
+        key = str(s).strip()
         if key in CTX.tokens:
             value, spec = CTX.tokens[key]
             if isinstance(value, SymInt) and spec in ("", None):
